@@ -5,6 +5,7 @@
 package harness
 
 import (
+	"time"
 	"encoding/json"
 	"fmt"
 	"math/rand"
@@ -50,8 +51,17 @@ func TestRun(t *testing.T) {
 		rand.Seed(job.Seed + int64(i))
 		synctest.Test(t, func(t *testing.T) {
 			ids := append(append([]string{}, sc.Voters...), sc.Extra...)
-			rec.Begin(sc.Name, Ev{"voters": sc.Voters, "extra": orEmpty(sc.Extra), "family": sc.Family, "controlled": sc.Controlled, "attack": sc.Attack})
+			et, lease := 300, 100
+			if sc.ETMS > 0 {
+				et = sc.ETMS
+			}
+			if sc.LeaseMS > 0 {
+				lease = sc.LeaseMS
+			}
+			rec.Begin(sc.Name, Ev{"voters": sc.Voters, "extra": orEmpty(sc.Extra), "family": sc.Family, "controlled": sc.Controlled, "attack": sc.Attack,
+				"et_us": et * 1000, "lease_us": lease * 1000})
 			c := NewCluster(t, rec, ids)
+			c.ET, c.Lease = time.Duration(et)*time.Millisecond, time.Duration(lease)*time.Millisecond
 			defer c.Cleanup()
 			r := &Runner{c: c, sc: sc}
 			r.Run()
